@@ -217,6 +217,7 @@ def one_tree(tspec, relative_style, acc, rnd, only_mp=None, force_excl=None, for
             mp_abs = os.path.join(root, mp) if mp else root
             get_evaluable_architecture(root, mp_abs)
             plain = HUB.scan_events[-1]
+            dirs_ = [d for d in dirs if d and "/" not in d]
             rel_root = os.path.basename(root)
             rel_mp = os.path.join(rel_root, mp) if mp else rel_root
             spellings = {
@@ -227,6 +228,9 @@ def one_tree(tspec, relative_style, acc, rnd, only_mp=None, force_excl=None, for
                 "relative": (rel_root, rel_mp),
                 "dot-relative": ("./" + rel_root, "./" + rel_mp + "/"),
                 "relative-pathlib": (Path(rel_root), Path(rel_mp)),
+                # the same directories spelled with '..' components
+                "dotdot": (os.path.join(root, os.pardir, rel_root), os.path.join(mp_abs, os.pardir, os.path.basename(mp_abs)) if mp else os.path.join(root, os.pardir, rel_root)),
+                "dotdot-through-a-child": (root, os.path.join(root, dirs_[0], os.pardir, mp) if (mp and dirs_) else root),
             }
             for label, (r_arg, m_arg) in spellings.items():
                 c5 = dict(case, mp=mp, spelling=label)
